@@ -122,10 +122,8 @@ def main(tier, seed):
     from vlib import glue
     glue.run(chk, 'C01')
     items = []
-    pats = patterns_quick()
-    if tier == 'thorough':
-        A = P.atoms('abB.')
-        pats += list(itertools.islice(P.enum_names(A, 3), 0, None))
+    from vlib import patsets
+    pats = patsets.name_patterns(tier)
     fsets = ['E', 'E|D', 'E|I', '0', 'E|W'] if tier == 'quick' else list(FLAGSETS)
     for fs in fsets:
         fl = FLAGSETS[fs]
